@@ -114,6 +114,23 @@ func vServeStreamN(e *vEnv, stream []byte, ip string, port int, limit time.Durat
 	}
 }
 
+// vServeStreamRaw feeds a byte stream to the connection handler for the raw
+// (no record marking) transport mode.
+func vServeStreamRaw(e *vEnv, stream []byte, ip string, port int, limit time.Duration) (out []byte, returned, closed bool, panicked any) {
+	conn := vNewFakeConn(stream, ip, port)
+	done := make(chan any, 1)
+	go func() {
+		defer func() { done <- recover() }()
+		e.srv.handleConnection(conn, e.h)
+	}()
+	select {
+	case p := <-done:
+		return conn.output(), true, conn.isClosed(), p
+	case <-time.After(limit):
+		return conn.output(), false, conn.isClosed(), nil
+	}
+}
+
 // vSplitRecords splits a server output stream into records (independent reassembly).
 func vSplitRecords(b []byte) (recs [][]byte, rest []byte) {
 	for len(b) > 0 {
